@@ -23,6 +23,7 @@ def parseAttributesLoop (data : Bytes) (off : Nat) (acc : List Attr) (n : Nat) :
     else do
       let v ← slice data (off + 2) (off + l8.toNat)
       parseAttributesLoop data (off + l8.toNat) (⟨t, v⟩ :: acc) (n + 1)
+  else if off ≠ data.length then pure (none, n)          -- fix KF-coa-trailing-byte: a dangling byte is malformed
   else pure (some acc.reverse, n)
 termination_by data.length - off
 decreasing_by omega
@@ -91,8 +92,10 @@ structure Reply where
 /-- `copy(packet[4:20], responseAuth)` into 16 zero bytes -/
 def copy16 (src : Bytes) : Bytes := (src ++ zeros16).take 16
 
-/-- the attribute bytes `sendResponse` builds -/
+/-- the attribute bytes `sendResponse` builds; the Reply-Message is cut to the 253 octets an attribute
+    value can hold (fix KF-coa-long-reply; before, `uint8(2+len(message))` wrapped) -/
 def respAttrs (errorCause : Nat) (message : Bytes) : Bytes :=
+  let message := message.take 253
   (if errorCause ≠ 0 then [101, 6] ++ putBE 4 (errorCause % 4294967296) else []) ++
   (if message ≠ [] then [18, UInt8.ofNat ((2 + message.length) % 256)] ++ message else [])
 
@@ -150,12 +153,23 @@ def parseFields (k : Kind) : List Attr → Fields → G Fields
 
 /-! ### the specification side: what "an authentic, complete RADIUS request" means (RFC 5176 §2.3) -/
 
-/-- well-formed attribute area, defined on the bytes (independently of the parser's offsets):
-    a sequence of TLVs with 2 ≤ length ≤ remaining bytes; fewer than two trailing bytes are tolerated
-    (that is what `parseAttributes` accepts) -/
-def attrsWF : Bytes → Bool
+/-- well-formed attribute area in the sense of RFC 2865 §5, defined on the bytes (independently of the
+    parser's offsets): a sequence of TLVs, each with 2 ≤ length ≤ remaining bytes, that fills the area
+    EXACTLY — no byte may be left over -/
+def attrsWF_strict : Bytes → Bool
+  | [] => true
+  | [_] => false
   | _ :: l :: rest =>
-    decide (2 ≤ l.toNat) && decide (l.toNat - 2 ≤ rest.length) && attrsWF (rest.drop (l.toNat - 2))
+    decide (2 ≤ l.toNat) && decide (l.toNat - 2 ≤ rest.length) && attrsWF_strict (rest.drop (l.toNat - 2))
+termination_by bs => bs.length
+decreasing_by simp; omega
+
+/-- what `parseAttributes` accepted BEFORE the fix of KF-coa-trailing-byte: the same, but a single byte left
+    over after the last attribute was tolerated.  Kept only to state the recorded deviation
+    (`Spec.C15.KF_coa_trailing_byte_witness`); no theorem about the current code mentions it. -/
+def attrsWF_lenient : Bytes → Bool
+  | _ :: l :: rest =>
+    decide (2 ≤ l.toNat) && decide (l.toNat - 2 ≤ rest.length) && attrsWF_lenient (rest.drop (l.toNat - 2))
   | _ => true
 termination_by bs => bs.length
 decreasing_by simp; omega
@@ -167,13 +181,14 @@ def lengthField (buf : Bytes) : Nat := beNat ((buf.take 4).drop 2)
 def packetOf (buf : Bytes) : Bytes := buf.take (lengthField buf)
 
 /-- THE authenticity predicate of C15: the datagram is a complete RADIUS packet (20 ≤ length field ≤
-    datagram size), it is a CoA-Request or Disconnect-Request, its attribute area is well formed, and its
+    datagram size), it is a CoA-Request or Disconnect-Request, its attribute area is well formed (strictly: the
+    TLVs fill `d[20:L]` exactly), and its
     Request Authenticator equals H(code ‖ id ‖ length ‖ 16 zero bytes ‖ attributes ‖ secret) -/
 def authentic (H : Bytes → Bytes) (secret buf : Bytes) : Bool :=
   decide (20 ≤ buf.length) &&
   decide (20 ≤ lengthField buf) && decide (lengthField buf ≤ buf.length) &&
   (buf.head? == some 40 || buf.head? == some 43) &&
-  attrsWF ((packetOf buf).drop 20) &&
+  attrsWF_strict ((packetOf buf).drop 20) &&
   decide (H (buf.take 4 ++ zeros16 ++ (packetOf buf).drop 20 ++ secret) = (buf.take 20).drop 4)
 
 end Bng.Coa
